@@ -507,7 +507,7 @@ def _identity(m, st, fr, callee, args, dest_ty, term):
 
 
 def _fmt_write(m, st, fr, callee, args, dest_ty, term):
-    st.events.append(('fmt_write', m.sx.resolve_deep(st, args[1]) if len(args) > 1 else None))
+    st.events.append(('fmt_write', m.sx.resolve_deep(st, args[1]) if len(args) > 1 else None, term['line']))
     return ok(UNIT)
 
 
